@@ -259,6 +259,56 @@ Theorem ippo_masks_pinned_refuted :
 Proof. exact ippo_masks_pinned_refuted_lemma. Qed.
 Print Assumptions ippo_masks_pinned_refuted.
 
+(* DEEPENING 3.  State across calls: forward() overwrites the distribution state completely - whatever an earlier forward
+   (on this or another batch) left behind has no influence on its outputs nor on the state log_prob will read *)
+Theorem forward_forgets_history : forall ed ed0 lg mask dr,
+  ed_space ed = ed_space ed0 -> ed_squash ed = ed_squash ed0 -> ed_log_std ed = ed_log_std ed0 ->
+  ed_forward ed lg mask dr = ed_forward ed0 lg mask dr.
+Proof. exact forward_forgets_history_lemma. Qed.
+Print Assumptions forward_forgets_history.
+
+(* a forward that raises (mask on a Box space) produces no new state *)
+Theorem failed_forward_is_noop : forall ed lg mk dr, is_box (ed_space ed) = true -> ed_forward ed lg (Some mk) dr = None.
+Proof. exact failed_forward_is_noop_lemma. Qed.
+Print Assumptions failed_forward_is_noop.
+
+(* entropy: one value per row, reading only that row of the logits (and the row-free log_std) *)
+Theorem entropy_rows_independent : forall sp lg ls b,
+  local2 lg -> (forall b', Forall (fun e => only_row b' e = true) ls) -> b < List.length lg ->
+  match spec_entropy sp lg ls with
+  | T1 v => List.length v = List.length lg /\ only_row b (nth b v dflt) = true
+  | _ => False
+  end.
+Proof. exact entropy_rows_independent_lemma. Qed.
+Print Assumptions entropy_rows_independent.
+
+(* masking with a mask whose entries all mean "legal" changes no value (any interpretation in which maskfill(legal, v) = v) *)
+Theorem ones_mask_identity : forall (T : Type) (P : prims T) (rho : string -> nat -> nat -> T) lg mk,
+  List.length mk = List.length lg ->
+  Forall (fun p => List.length (snd p) = List.length (fst p) /\ Forall (legal T P rho) (snd p)) (combine lg mk) ->
+  map (map (denote T P rho)) (masked_spec lg mk) = map (map (denote T P rho)) lg.
+Proof. exact ones_mask_identity_lemma. Qed.
+Print Assumptions ones_mask_identity.
+
+(* vectorised IPPO (E sub-environments): whatever the key order of the caller's dictionary, row k*E + e of a policy group's
+   stacked tensor (masks as well as observations - the same stacking) is row e of the k-th member of the group in
+   agent_ids order: mask row and observation row with the same index belong to the same agent and sub-environment *)
+Theorem stack_rows_agent_major : forall (R : Type) (E : nat) (ids : list agent) (d d' : list (agent * list R)) (g : nat),
+  NoDup (map fst d) -> Permutation d d' ->
+  (forall a, In a (group_members ids g) -> exists rows, lookup_agent a d = Some rows /\ List.length rows = E) ->
+  stack_rows ids d' g = stack_rows ids d g /\
+  forall k a e, nth_error (group_members ids g) k = Some a -> e < E ->
+    nth_error (stack_rows ids d' g) (k * E + e) = match lookup_agent a d with Some rows => nth_error rows e | None => None end.
+Proof. exact @stack_rows_agent_major_lemma. Qed.
+Print Assumptions stack_rows_agent_major.
+
+(* env-major stacking (a seeded round-3 change) is refuted *)
+Theorem stack_rows_env_major_refuted :
+  exists (ids : list agent) (d : list (agent * list nat)) g E,
+    stack_rows_env_major E ids d g <> map Some (stack_rows ids d g).
+Proof. exact stack_rows_env_major_refuted_lemma. Qed.
+Print Assumptions stack_rows_env_major_refuted.
+
 (* ---- non-vacuity: concrete states satisfy the hypotheses ---- *)
 Open Scope string_scope.
 (* a stored action (plain variables) misses the cache after two forwards of a squashed Box policy, and the theorem applies *)
@@ -291,4 +341,16 @@ Example masked_multidiscrete_nonvacuous :
 Proof.
   cbv zeta. split; [apply ed_init_ok|]. split; [discriminate|].
   repeat split; try (repeat constructor; fail); discriminate.
+Qed.
+
+(* deepening 3: the hypotheses of [stack_rows_agent_major] hold for 2 groups x 2 members x 2 envs listed in another key order *)
+Example stack_rows_nonvacuous :
+  let ids := [(1, 1); (0, 0); (1, 0); (0, 1)] in
+  let d := [((0, 0), [1; 2]); ((0, 1), [3; 4]); ((1, 0), [5; 6]); ((1, 1), [7; 8])] in
+  NoDup (map fst d) /\ (forall a, In a (group_members ids 1) -> exists rows, lookup_agent a d = Some rows /\ List.length rows = 2) /\
+  stack_rows ids d 1 = [7; 8; 5; 6].
+Proof.
+  cbv zeta. repeat split.
+  - repeat constructor; cbn; intuition discriminate.
+  - intros a [<-|[<-|[]]]; eexists; split; reflexivity.
 Qed.
